@@ -186,3 +186,57 @@ Proof.
   - apply tie_eu_rowC.
   - apply tie_eu_rowD.
 Qed.
+
+(* THE C WARPING-PATHS KERNEL AS WRITTEN, UNDER A BOUND.  dtw_warping_paths_ndim regenerated whole (Gen_cwpsk.v), run for
+   its value with p.max_dist = B - ANY bound: max_dist in the internal representation, the Euclidean upper bound that
+   use_pruning installs (C03_c_wps_use_pruning_is_a_bound), or infinity - with its PrunedDTW bookkeeping (pruned start
+   column and its reset while a path can still start in the zero border, skip loop, break beyond the end column of the
+   previous row, tail fill from the break cell), the four row regions of the compact layout and the end-of-series scans:
+   it returns `v <= B ? v : inf` for the DTW value v of the specification - exactly the unbounded distance whenever
+   that is at most B, infinity otherwise, never a different finite number -, every slot of the array holds its cell of
+   the specification matrix or, where that cell exceeds B, some value that exceeds B, and every access is in range. *)
+From DV Require Import CWpsValue CWpsFinal.
+From DVGen Require Import Gen_cwps.
+
+Theorem C03_c_wps_kernel_with_bound_as_written :
+  forall (window p m mld : Z) (psi : (nat * nat) * (nat * nat)), (0 <= window)%Z ->
+  let usq := c_to_u (cs_of window p m mld psi SqEuclid) in
+  forall (s1 s2 : list point) (d : nat),
+  (forall q, In q s1 -> length q = d) -> (forall q, In q s2 -> length q = d) ->
+  (1 <= length s1)%nat -> (1 <= length s2)%nat ->
+  (psi_1b usq <= length s1)%nat -> (psi_2b usq <= length s2)%nat ->
+  (0 <= p)%Z -> (psi_1b usq < length s1 \/ psi_2e usq < length s2)%nat ->
+  forall (B : cost) ce ced1 ced2 (wps0 : list cost) (keep : bool) idist,
+  let l1 := Z.of_nat (length s1) in let l2 := Z.of_nat (length s2) in
+  let W := CWps.cw_width l1 l2 window in
+  Z.of_nat (length wps0) = ((l1 + 1) * W)%Z -> (idist =? 1)%Z = false ->
+  exists wps',
+    c_dtw_warping_paths_ndim ce (CWps.cw_shift l1 l2 window) ced1 ced2 wps0 (concat s1) l1 (concat s2) l2 true keep false (Z.of_nat d)
+      ((l1 + 1) * W)%Z (c_parts_ldiff l1 l2) (c_parts_ldiffr l1 l2 (c_parts_ldiff l1 l2))
+      (c_parts_ldiffc l1 l2 (c_parts_ldiff l1 l2)) (c_parts_window l1 l2 window) W ((l1 + 1) * W)%Z
+      (c_parts_ri1 l1 (c_parts_overlap_left l1 (c_parts_ldiffr l1 l2 (c_parts_ldiff l1 l2)) (c_parts_window l1 l2 window))
+                      (c_parts_overlap_right l1 (c_parts_ldiffr l1 l2 (c_parts_ldiff l1 l2)) (c_parts_window l1 l2 window)))
+      (c_parts_ri2 l1 (c_parts_overlap_left l1 (c_parts_ldiffr l1 l2 (c_parts_ldiff l1 l2)) (c_parts_window l1 l2 window)))
+      (c_parts_ri3 l1 (c_parts_overlap_left l1 (c_parts_ldiffr l1 l2 (c_parts_ldiff l1 l2)) (c_parts_window l1 l2 window))
+                      (c_parts_overlap_right l1 (c_parts_ldiffr l1 l2 (c_parts_ldiff l1 l2)) (c_parts_window l1 l2 window)))
+      (adj_max_step usq) B (Fin (adj_penalty usq)) idist false (Z.of_nat (psi_1b usq)) (Z.of_nat (psi_1e usq))
+      (Z.of_nat (psi_2b usq)) (Z.of_nat (psi_2e usq)) false
+    = (RPlain (sq_repr keep (bounded B (dtw_value usq s1 s2))), wps', true) /\
+    Z.of_nat (length wps') = ((l1 + 1) * W)%Z /\
+    forall (i : nat) (s : Z), (Z.of_nat i <= l1)%Z -> (0 <= s < W)%Z ->
+      (s + CWps.cw_shift l1 l2 window (Z.of_nat i - 1) <= l2)%Z ->
+      ((s + CWps.cw_shift l1 l2 window (Z.of_nat i - 1))%Z = 0%Z -> (Z.of_nat i <= CWps.cw_ri2 l1 l2 window)%Z) ->
+      exists v, aget wps' (Z.of_nat i * W + s) = sq_repr keep v /\
+                PyDistPrune.Q B v (mget (wps_matrix usq s1 s2) i (Z.to_nat (s + CWps.cw_shift l1 l2 window (Z.of_nat i - 1)))).
+Proof.
+  intros window p m mld psi Hw usq s1 s2 d Hd1 Hd2 H1 H2 Hp1 Hp2 Hp Hpsi.
+  exact (c_wps_kernel_bounded window p m mld psi Hw s1 s2 d Hd1 Hd2 H1 H2 Hp1 Hp2 Hp Hpsi).
+Qed.
+
+Theorem C03_c_wps_use_pruning_is_a_bound :
+  forall ce shiftf ced1 ced2 wps0 f1 zl1 f2 zl2 rdtw keep pneg nd wlen a1 a2 a3 a4 a5 a6 a7 a8 a9 ms md pn idist zp1b zp1e zp2b zp2e,
+  (idist =? 1)%Z = false ->
+  c_dtw_warping_paths_ndim ce shiftf ced1 ced2 wps0 f1 zl1 f2 zl2 rdtw keep pneg nd wlen a1 a2 a3 a4 a5 a6 a7 a8 a9 ms md pn idist false zp1b zp1e zp2b zp2e true
+  = c_dtw_warping_paths_ndim ce shiftf ced1 ced2 wps0 f1 zl1 f2 zl2 rdtw keep pneg nd wlen a1 a2 a3 a4 a5 a6 a7 a8 a9 ms
+      (if (nd =? 1)%Z then ced2 else ced1) pn idist false zp1b zp1e zp2b zp2e false.
+Proof. exact c_wps_use_pruning_is_a_bound. Qed.
